@@ -46,6 +46,21 @@ pub fn corpus() -> Vec<(&'static str, IncCfg, Vec<Op>)> {
         Op::ClosePosition { sender: 1, dur: 86_400, now: START_TIME + 2 * 86_400 },
         Op::Snapshot, Op::Claim { sender: 1 }, Op::Claim { sender: 2 },
     ]));
+    // a staker who joins a flow more than EPOCH_CLAIM_CAP epochs after its start: few unclaimed epochs for that address
+    let c = cfg_base(3, 0);
+    let mut late: Vec<Op> = vec![flow(&c, 3, 1, 13_000_000, Some(131)), open_pos(&c, 1, 1000, 86_400)];
+    for _ in 0..103 { late.push(Op::NewEpoch); late.push(Op::Snapshot); }
+    late.push(open_pos(&c, 2, 1000, 86_400));
+    for _ in 0..3 { late.push(Op::NewEpoch); late.push(Op::Snapshot); }
+    late.extend(vec![Op::Claim { sender: 2 }, Op::Claim { sender: 2 }, Op::Claim { sender: 1 }, Op::Claim { sender: 1 }]);
+    v.push(("late_joiner_beyond_claim_cap", c.clone(), late));
+    // exactly EPOCH_CLAIM_CAP (100) unclaimed epochs: the claim must cover all of them (and equal the query)
+    let c = cfg_base(3, 0);
+    let mut exact: Vec<Op> = vec![flow(&c, 3, 1, 13_000_000, Some(131)), open_pos(&c, 1, 1000, 86_400), open_pos(&c, 2, 500, 86_400),
+                                  Op::NewEpoch, Op::Snapshot, Op::Claim { sender: 1 }];
+    for _ in 0..100 { exact.push(Op::NewEpoch); exact.push(Op::Snapshot); }
+    exact.extend(vec![Op::Claim { sender: 1 }, Op::Claim { sender: 1 }]);
+    v.push(("exactly_cap_unclaimed_epochs", c.clone(), exact));
     // (iii) claim after a close in the same epoch writes the stale weight back: weight without stake from then on
     let c = cfg_base(3, 0);
     v.push(("witness_claim_resurrects_weight", c.clone(), vec![
@@ -119,9 +134,15 @@ pub fn monitor_c13(m: &mut Mon, w: &IncWorld, pre: &Snap, op: &Op, ok: bool, pos
             let last = pre.st.last.get(&n).copied();
             // payouts per flow in storage order
             let paid: Vec<(i64, u128)> = pre.st.flows.iter().filter_map(|f| post.flow(f.id).map(|g| (w.asset_id(&f.asset), g.claimed - f.claimed))).filter(|x| x.1 > 0).collect();
-            let few_epochs = match last { Some(l) => pre.epoch - l <= 100, None => pre.epoch <= 99 };
+            let few_epochs = match last { Some(l) => pre.epoch - l <= 100, None => true };
+            // known class first_claim_beyond_epoch_cap: never claimed before and the chain is past epoch 99
+            let first_claim_late = last.is_none() && pre.epoch > 99;
             if few_epochs {
                 match pre.rewards.get(sender) {
+                    Some(Ok(q)) if first_claim_late && *q != paid => {
+                        m.out.monitor_evals += 1;
+                        m.out.known_hit("C13", "first_claim_beyond_epoch_cap", &format!("first claim of an address past epoch 99: the rewards query reported {:?} immediately before the claim paid {:?}", q, paid), m.replay.clone());
+                    }
                     Some(Ok(q)) => m.check(*q == paid, &format!("claim_eq_query: the rewards query reported {:?} immediately before the claim paid {:?}", q, paid)),
                     _ => m.check(false, "claim_eq_query: the rewards query failed although the claim succeeded"),
                 }
